@@ -462,6 +462,61 @@ theorem spec_decAddrReq : Spec true decAddrReq (fun m w => w = encode m) := by
   unfold decAddrReq
   exact Spec.pure _ rfl
 
+theorem spec_decHeadersReq : Spec true decHeadersReq (fun m w => w = encode m) := by
+  unfold decHeadersReq
+  apply Spec.bind spec_u8; intro n
+  apply Spec.bind (spec_fixed 32 (lt64 32)); intro s
+  apply Spec.bind (spec_fixed 32 (lt64 32)); intro e
+  apply Spec.pure
+  intro w1 h1 w2 h2 w3 h3
+  simp [encode, h1.1, h2.1, h3.1]
+
+theorem spec_decBlocksReq : Spec true decBlocksReq (fun m w => w = encode m) := by
+  unfold decBlocksReq
+  apply Spec.bind spec_u8; intro n
+  apply Spec.bind (spec_fixed 32 (lt64 32)); intro s
+  apply Spec.bind (spec_fixed 32 (lt64 32)); intro e
+  apply Spec.pure
+  intro w1 h1 w2 h2 w3 h3
+  simp [encode, h1.1, h2.1, h3.1]
+
+theorem spec_decDataReq : Spec true decDataReq (fun m w => w = encode m) := by
+  unfold decDataReq
+  apply Spec.bind spec_u8; intro n
+  apply Spec.bind (spec_fixed 32 (lt64 32)); intro s
+  apply Spec.pure
+  intro w1 h1 w2 h2
+  simp [encode, h1.1, h2.1]
+
+theorem spec_decNotFound : Spec true decNotFound (fun m w => w = encode m) := by
+  unfold decNotFound
+  apply Spec.bind (spec_fixed 32 (lt64 32)); intro s
+  apply Spec.pure
+  intro w1 h1
+  simp [encode, h1.1]
+
+theorem spec_decFindNode : Spec true decFindNode (fun m w => w = encode m) := by
+  unfold decFindNode
+  apply Spec.bind (spec_fixed 20 (lt64 20)); intro s
+  apply Spec.pure
+  intro w1 h1
+  simp [encode, h1.1]
+
+theorem spec_varBytesEofFirst {g} : Spec g varBytesEofFirst (fun d w => w = writeVarBytes d) := by
+  unfold varBytesEofFirst
+  apply Spec.bind spec_nVarBytes
+  intro r
+  apply Spec.ite
+  · intro _; exact Spec.fail _
+  · intro he
+    apply Spec.ite
+    · intro _; exact Spec.fail _
+    · intro hi
+      apply Spec.pure
+      intro w1 h1
+      simp only [List.append_nil]
+      exact h1 (by simpa using he) (by simpa using hi)
+
 theorem Spec.val {g} {d : Dec α} {Q : α → Prop} {s : St} {a : α} {s' : St}
     (hq : Spec g d (fun a _ => Q a)) (hg : g = false) (w : s.src.wf) (h63 : s.src.bs.length < 2 ^ 63)
     (h : d s = .ok (a, s')) : Q a ∧ s'.src.wf := by
@@ -826,23 +881,146 @@ theorem spec_decUnknown (cmd : Bytes) : Spec true (decUnknown cmd) (fun m w => w
   rw [List.take_of_length_le]
   simp
 
-theorem spec_decodePayload (cmd : Bytes) :
-    Spec true (decodePayload .sound cmd) (fun m w => (∃ c, m = .opaque c) ∨ w = encode m) := by
+/-! ### decoders that call out of the package (oracle) -/
+
+theorem spec_peekRest {g} : Spec g peekRest (fun rest w => w = [] ∧ rest.length < 2 ^ 63) := by
+  intro s w h63
+  refine ⟨Adv.refl w, id, fun _ => ⟨seg_self _, ?_⟩⟩
+  simp only [List.length_drop]
+  omega
+
+theorem spec_decHeader {g} (O : Oracle) : Spec g (decHeader O) (fun re w => w = re ∨ g = false) := by
+  unfold decHeader
+  apply Spec.bindQ (Q := fun rest : Bytes => rest.length < 2 ^ 63) (R1 := fun _ w => w = [])
+  · exact spec_peekRest.mono (fun _ _ h => h.2)
+  · exact spec_peekRest.mono (fun _ _ h => h.1)
+  intro rest hrest
+  cases hh : O.hdr rest with
+  | none => exact Spec.fail _
+  | some r =>
+    obtain ⟨n, re⟩ := r
+    simp only
+    apply Spec.ite
+    · intro _; exact Spec.fail _
+    intro hn
+    apply Spec.bind (spec_nBytes n (by unfold two64; omega)); intro r
+    apply Spec.ite
+    · intro _; exact Spec.fail _
+    intro he
+    apply Spec.bind (R1 := fun _ w => w = [] ∧ (g = true → re = r.1))
+    · apply Spec.note
+      intro h
+      exact ⟨rfl, fun hg => by simpa using h hg⟩
+    intro _
+    apply Spec.pure
+    intro w1 h1 w2 h2 w3 h3
+    subst h3
+    obtain ⟨rfl, hre⟩ := h1
+    cases g with
+    | false => right; rfl
+    | true =>
+      left
+      rw [hre rfl]
+      simp [(h2 (by simpa using he)).1]
+
+theorem spec_decHeaders (O : Oracle) : Spec true (decHeaders O) (fun m w => w = encode m) := by
+  unfold decHeaders
+  apply Spec.bind (spec_uN 4 (lt64 4)); intro count
+  have hb : Spec true (decHeader O) (fun x w => w = (fun y => y) x ∧ True) :=
+    (spec_decHeader O).mono (fun a w h => ⟨h.elim id (fun h => by cases h), trivial⟩)
+  apply Spec.bind (spec_repeatD hb count); intro hs
+  apply Spec.pure
+  intro w1 h1 w2 h2
+  simp [encode, h1.1, h1.2.1, h2.1]
+
+theorem spec_decMembersReq (O : Oracle) : Spec true (decMembersReq O) (fun m w => w = encode m) := by
+  unfold decMembersReq
+  apply Spec.bind (spec_fixed 20 (lt64 20)); intro f
+  apply Spec.bind (spec_fixed 20 (lt64 20)); intro t
+  apply Spec.bind (spec_uN 4 (lt64 4)); intro ts
+  apply Spec.ite
+  · intro hts
+    apply Spec.bind spec_readVarBytes; intro pkb
+    cases hpk : O.pk pkb with
+    | none => exact Spec.fail _
+    | some canon =>
+      simp only
+      apply Spec.bind spec_readVarBytes; intro sg
+      apply Spec.ite
+      · intro _; exact Spec.fail _
+      intro _
+      apply Spec.ite
+      · intro _; exact Spec.fail _
+      intro _
+      apply Spec.bind (R1 := fun _ w => w = [] ∧ canon = pkb)
+      · apply Spec.note; intro h; exact ⟨rfl, by simpa using h rfl⟩
+      intro _
+      apply Spec.pure
+      intro w1 h1 w2 h2 w3 h3 w4 h4 w5 h5
+      obtain ⟨rfl, rfl⟩ := h1
+      simp [encode, hts, h2, h3, h4.1, h5.1]
+  · intro hts
+    apply Spec.pure
+    intro w1 h1 w2 h2 w3 h3
+    have : ts = 0 := by simpa using hts
+    subst this
+    simp [encode, h1.1, h2.1, h3.1]
+
+theorem spec_decConsensus (O : Oracle) : Spec true (decConsensus O) (fun m w => w = encode m) := by
+  unfold decConsensus
+  apply Spec.bind (spec_uN 4 (lt64 4)); intro ver
+  apply Spec.bind (spec_fixed 32 (lt64 32)); intro prev
+  apply Spec.bind (spec_uN 4 (lt64 4)); intro height
+  apply Spec.bind (spec_uN 2 (lt64 2)); intro bk
+  apply Spec.bind (spec_uN 4 (lt64 4)); intro ts
+  apply Spec.bind spec_varBytesEofFirst; intro data
+  apply Spec.bind spec_varBytesEofFirst; intro pkb
+  cases hpk : O.pk pkb with
+  | none => exact Spec.fail _
+  | some canon =>
+    simp only
+    apply Spec.bind spec_readVarBytes; intro sg
+    apply Spec.bind (R1 := fun _ w => w = [] ∧ canon = pkb)
+    · apply Spec.note; intro h; exact ⟨rfl, by simpa using h rfl⟩
+    intro _
+    apply Spec.pure
+    intro w1 h1 w2 h2 w3 h3 w4 h4 w5 h5 w6 h6 w7 h7 w8 h8 w9 h9
+    obtain ⟨rfl, rfl⟩ := h1
+    simp [encode, h2, h3, h4, h5.1, h6.1, h7.1, h8.1, h9.1]
+
+theorem spec_decUpdateKadId (O : Oracle) : Spec true (decUpdateKadId O) (fun m w => w = encode m) := by
+  unfold decUpdateKadId
+  apply Spec.bind spec_readVarBytes; intro pkb
+  cases hpk : O.pk pkb with
+  | none => exact Spec.fail _
+  | some canon =>
+    simp only
+    apply Spec.ite
+    · intro _; exact Spec.fail _
+    intro _
+    apply Spec.bind (R1 := fun _ w => w = [] ∧ canon = pkb)
+    · apply Spec.note; intro h; exact ⟨rfl, by simpa using h rfl⟩
+    intro _
+    apply Spec.pure
+    intro w1 h1 w2 h2
+    obtain ⟨rfl, rfl⟩ := h1
+    simp [encode, h2]
+
+theorem spec_decodePayload (O : Oracle) (cmd : Bytes) :
+    Spec true (decodePayload O cmd) (fun m w => (∃ c, m = .opaque c) ∨ w = encode m) := by
   unfold decodePayload
   have op : ∀ c : Bytes, Spec true (Pure.pure (Msg.opaque c) : Dec Msg) (fun m w => (∃ c, m = .opaque c) ∨ w = encode m) :=
     fun c => Spec.pure _ (Or.inl ⟨c, rfl⟩)
   have r : ∀ {d : Dec Msg}, Spec true d (fun m w => w = encode m) →
       Spec true d (fun m w => (∃ c, m = .opaque c) ∨ w = encode m) := fun h => h.mono (fun _ _ h => Or.inr h)
-  have r2 : ∀ {d : Dec Msg} {c0 : Bytes}, Spec true d (fun m w => m = .opaque c0 ∨ w = encode m) →
-      Spec true d (fun m w => (∃ c, m = .opaque c) ∨ w = encode m) :=
-    fun h => h.mono (fun _ _ h => h.elim (fun h => Or.inl ⟨_, h⟩) Or.inr)
   repeat' (apply Spec.ite <;> intro _)
   all_goals first
     | exact op _
     | exact r spec_decPing | exact r spec_decPong | exact r spec_decVersion | exact r spec_decVerack
-    | exact r spec_decAddr_sound | exact r spec_decAddrReq | exact r spec_decHeadersReq | exact r2 spec_decHeaders
+    | exact r spec_decAddr | exact r spec_decAddrReq | exact r spec_decHeadersReq | exact r (spec_decHeaders O)
     | exact r spec_decInv | exact r spec_decDataReq | exact r spec_decNotFound | exact r spec_decBlocksReq
-    | exact r spec_decFindNode | exact r spec_decFindNodeResp | exact r2 spec_decMembersReq | exact r spec_decMembers
+    | exact r spec_decFindNode | exact r spec_decFindNodeResp | exact r (spec_decMembersReq O) | exact r spec_decMembers
+    | exact r (spec_decConsensus O) | exact r (spec_decUpdateKadId O)
     | exact r (spec_decUnknown _)
 
 end OntVerif.Proofs.P2PMsg
